@@ -356,4 +356,39 @@ CANARIES: Dict[str, Dict[str, Any]] = {
         old="            a = float_tensor_args[0] if len(float_tensor_args) == 1 else None", new="            a = float_tensor_args[0] if len(float_tensor_args) >= 1 else None",
         job="c19:prune_non_float_tensors[float_args=2,node_is_float=False,user=positional]", expect=["consumer_"],
     ),
+    "c18-abs-mean-swapped": dict(
+        props=["C18"], file="unit_scaling/transforms/_track_scales.py", module="unit_scaling.transforms._track_scales",
+        old="            abs_mean=t.mean().abs().item(),", new="            abs_mean=abs_t.mean().item(),",
+        job="c18:Metrics.from_tensor", expect=["field_abs_mean_is_the_true_statistic"],
+    ),
+    "c18-abs-max-of-signed": dict(
+        props=["C18"], file="unit_scaling/transforms/_track_scales.py", module="unit_scaling.transforms._track_scales",
+        old="            abs_max=abs_t.max().item(),", new="            abs_max=t.max().abs().item(),",
+        job="c18:Metrics.from_tensor", expect=["field_abs_max_is_the_true_statistic"],
+    ),
+    "c18-tracking-scales-the-gradient": dict(
+        props=["C18"], file="unit_scaling/transforms/_track_scales.py", module="unit_scaling.transforms._track_scales",
+        old="        return t.clone(), None, None", new="        return t.clone() * 0.5, None, None",
+        job="c18:ScaleTrackingAutogradFunction", expect=["gradient_passes_through_unchanged"],
+    ),
+    "c18-tracking-modifies-forward": dict(
+        props=["C18"], file="unit_scaling/transforms/_track_scales.py", module="unit_scaling.transforms._track_scales",
+        old="        ctx.node_meta = node_meta  # type: ignore\n        return t.clone()", new="        ctx.node_meta = node_meta  # type: ignore\n        return t.clone() + 0.0 * t.mean()",
+        job="c18:ScaleTrackingAutogradFunction", expect=["forward_value_unchanged", "gradient_passes"],
+    ),
+    "c18-bwd-metrics-of-forward-tensor": dict(
+        props=["C18"], file="unit_scaling/transforms/_track_scales.py", module="unit_scaling.transforms._track_scales",
+        old="        self.bwd = self.from_tensor(bwd_tensor)", new="        self.bwd = self.fwd",
+        job="c18:ScaleTrackingAutogradFunction", expect=["backward_metrics"],
+    ),
+    "c18-run_node-returns-untracked": dict(
+        props=["C18"], file="unit_scaling/transforms/_track_scales.py", module="unit_scaling.transforms._track_scales",
+        old="            out = ScaleTrackingAutogradFunction.apply(out, n.meta)  # type: ignore", new="            ScaleTrackingAutogradFunction.apply(out, n.meta)  # type: ignore",
+        job="c18:run_node[transforms,float]", expect=["the_tracked_tensor_is_what_every_consumer_sees"],
+    ),
+    "c18-instruments-int-tensors": dict(
+        props=["C18"], file="unit_scaling/transforms/_track_scales.py", module="unit_scaling.transforms._track_scales",
+        old="    return isinstance(a, Tensor) and a.is_floating_point()", new="    return isinstance(a, Tensor)",
+        job="c18:run_node[transforms,int]", expect=["non_float_value_is_never_instrumented"],
+    ),
 }
